@@ -329,6 +329,9 @@ class ConvexF:
         self.trace = []          # (x list, with_z, refused)
         self.keep_trace = True
         self.sparse_out = bool(inst.get('sparse_F'))
+        # the start point is an input of the caller: F() hands out the same stored matrix every time,
+        # so a solver that writes into it is observable (C09: "never modifies ... start points")
+        self.x0m = matrix(self.x0, (self.n, 1), 'd')
 
     def in_domain(self, xl):
         if not all(comp_in_domain(c, self.n, xl) for c in self.comps):
@@ -340,7 +343,7 @@ class ConvexF:
     def __call__(self, x=None, z=None):
         matrix = self.matrix
         if x is None:
-            return self.mnl, matrix(self.x0, (self.n, 1), 'd')
+            return self.mnl, self.x0m
         self.calls += 1
         if self.calls > self.max_calls:
             raise RuntimeError('VERIF: F-call budget exhausted (line search does not terminate)')
